@@ -545,7 +545,9 @@ func (p *Parser) parseOption(s *parseState, name string, option *Option, canarg 
 			arg = s.pop()
 
 			if validationErr := option.isValidValue(arg); validationErr != nil {
-				return newErrorf(ErrExpectedArgument, validationErr.Error())
+				// (the validator's text is not a format; and a nil *Error in a
+				// non-nil error is reported like any other error)
+				return newError(ErrExpectedArgument, fmt.Sprint(validationErr))
 			} else if p.Options&PassDoubleDash != 0 && arg == "--" {
 				return newErrorf(ErrExpectedArgument, "expected argument for flag `%s', but got double dash `--'", option)
 			}
